@@ -89,7 +89,7 @@ HOME = {
     "BALANCE": ("C11", "C12", "C10"), "ESCGEN": ("C01", "C02", "C03", "C04", "C06", "C09"), "ESCCALL": ("C01", "C02", "C03", "C04", "C06", "C09"),
     "COLLAPSE": ("C04", "C05", "C07", "C09"), "MEASURE-SET": ("C04", "C05"), "PAIR": ("C02", "C03", "C13"), "LAYOUT": ("C01", "C02", "C04", "C05", "C06", "C09", "C10"),
     "ENVAXIS": ("C01", "C02", "C04", "C05", "C06", "C09", "C10"), "LABEL": ("C05", "C07", "C08"), "VALID": ("C17",), "DELEG-ORDER": ("C01", "C02", "C03", "C06", "C09"),
-    "OUTCOME-SPACE": ("C04", "C09"), "DIM-FLOOR": ("C10",), "PARTNER": ("C04", "C05", "C09"), "DIM-NORM": ("C10",), "RENORM-TABLE": ("C07", "C01"), "PHASE-GLOBAL": ("C08", "C07"), "ROUTE-env": ("C01", "C02", "C04", "C05", "C06", "C09", "C10"), "LABEL-EXACT": ("C07", "C08"), "EST-TAIL": ("C10",), "BOOK-extract": ("C13", "C02"), "DETACH": ("C02", "C05", "C06", "C07", "C09", "C13"), "STALE-PS": ("C01", "C02", "C03", "C06", "C09", "C10"), "DTYPE": ("C01", "C07", "C10", "C06", "C09", "C02", "C05", "C04", "C08"), "STALE-VIEW": ("C01", "C02", "C04", "C05", "C06", "C07", "C09", "C10"),
+    "OUTCOME-SPACE": ("C04", "C09"), "DIM-FLOOR": ("C10",), "PARTNER": ("C04", "C05", "C09"), "DIM-NORM": ("C10",), "MUST-APPLY": ("C01", "C03", "C11"), "RENORM-TABLE": ("C07", "C01"), "PHASE-GLOBAL": ("C08", "C07"), "ROUTE-env": ("C01", "C02", "C04", "C05", "C06", "C09", "C10"), "LABEL-EXACT": ("C07", "C08"), "EST-TAIL": ("C10",), "BOOK-extract": ("C13", "C02"), "DETACH": ("C02", "C05", "C06", "C07", "C09", "C13"), "STALE-PS": ("C01", "C02", "C03", "C06", "C09", "C10"), "DTYPE": ("C01", "C07", "C10", "C06", "C09", "C02", "C05", "C04", "C08"), "STALE-VIEW": ("C01", "C02", "C04", "C05", "C06", "C07", "C09", "C10"),
 }
 
 
